@@ -181,6 +181,18 @@ add("C10",
     "Dual multipliers from HiGHS (untrusted). Instances where no feasible (X, scales) exists are outside the property's premise and skipped (feasibility decided by an LP).",
     "Coq weak-duality certificate checker (linear rows, unbounded scale variables) + formulation lemmas", "DESIGN.md §5 C10, §3.2")
 
+add("C11",
+    "(F) the X-step and P-step matrices of the formulation model applied to vec X / vec P reproduce the weighted residual W o (P X A'^T - Bs), so both sub-problem objectives ARE the "
+    "squared fitting error (all shapes); the mask bounds force masked entries to 0 and the paired equal-total rows force equal layer totals; alternating eps-optimal half-steps form a "
+    "descent sequence whatever the start and the iteration count. (C) a passing verdict on a run means: every intensity within bounds / zero under the mask, equal layer totals when "
+    "requested, opacities within bounds (entrywise theorems, tolerance explicit), B_pred = model capture of P X, the recorded error sequence (one value per half-step, hook) never "
+    "rose, the final X refit did not raise it, and (weak duality) NO admissible factor of the same shape has a smaller squared error than the factor fitted last given the other. "
+    "Verdict evaluated in the Coq VM on every ReceptorEstimator.fit_decomposition result. (T) same seed => same result: every case run twice.",
+    TRUST + "Solvers (default SCS, CLARABEL) opaque; multipliers from HiGHS (untrusted). The NMF initialisation and the termination rule are not modelled (the theorems hold for any "
+    "start and any number of iterations); the per-iteration losses are the implementation's own numbers read through the DREYE_VERIF hook decomp.loss. lb = 0 in every generated system "
+    "(a positive lower bound on a masked source makes the implementation's problem infeasible; the model replaces the bound by 0 there). Seed determinism is a test, not a theorem.",
+    "Coq weak-duality certificate checker (proved sound) + formulation/descent theorems + hook-observed loss sequence", "DESIGN.md §5 C11, §3.2")
+
 add("C07",
     "(F) excitation: |b/(1+b) - p/(1+p)| = |b-p|/((1+b)(1+p)); error >= 0 and zero iff captures agree; every point with error <= s lies in an explicit polyhedron, so a Farkas "
     "certificate for that polyhedron proves that EVERY in-bound intensity vector has error > s. (F over R) Poisson: the rational Frank-Wolfe gap at the returned point bounds its "
